@@ -133,11 +133,22 @@ def accessors(chk, drv):
         name = rng.choice(sorted(lays))
         eta = lu.eta_grids(shape)
         idx_seed = rng.randrange(1 << 30)
+        hist = rng.choice([None, 'restore', 'restore', 'set'])
 
         def body():
             comm = MPI.COMM_WORLD
             h = getLayoutHandler(comm, lays, list(nprocs), eta)
-            g = Grid(eta, [None] * nd, h, name, comm)
+            g = Grid(eta, [None] * nd, h, name, comm, allocateSaveMemory=True)
+            if hist:
+                # the accessors must describe the CURRENT layout after any history of layout changes / save / restore
+                others = [n for n in lays if n != name]
+                if hist == 'restore' and others:
+                    g.saveGridValues()
+                    g.setLayout(others[0])
+                    g.restoreGridValues()
+                elif hist == 'set' and others:
+                    g.setLayout(others[0])
+                    g.setLayout(name)
             L = g.getLayout(name)
             r = np.random.RandomState(idx_seed + comm.Get_rank())
             idx = [int(r.randint(0, max(1, s))) for s in L.shape]
@@ -156,7 +167,7 @@ def accessors(chk, drv):
             out['sizes'] = {n: int(h.getLayout(n).size) for n in lays}
             return out
         res = lu.run_ranks(int(np.prod(nprocs)), body, policy='random', seed=it)
-        case = {'nprocs': nprocs, 'ext': shape, 'layouts': lays, 'layout': name}
+        case = {'nprocs': nprocs, 'ext': shape, 'layouts': lays, 'layout': name, 'history_before': hist}
         if not res.ok:
             chk.fail('C02:accessor-crash', 'constructing handler/grid or calling an accessor raised: ' + str(res.first_error())[:200], case)
             continue
@@ -246,7 +257,7 @@ def run(chk):
     chk.rule = ('split tables: every (n,p) in the box, non-trivial = p does not divide n; layouts/accessors: random '
                 '(rank<=4, process grid, permutation, extents incl. extent==P and extent==P+1) on every rank, '
                 'non-trivial = some distributed axis split unevenly; distinct by (grid, order, extents)')
-    chk.proof_side(build=not getattr(chk, 'no_build', False))
+    chk.proof_side(build=not getattr(chk, 'no_build', False), extra_props=('C02Extra',))
     drv = common.LeanDriver('Idx.lean')
     try:
         tables(chk, drv)
